@@ -3,6 +3,7 @@
   One JSON request per input line, one JSON response per output line.
 -/
 import Valida.Codec
+import Valida.Heap
 open Lean (Json)
 open Valida Valida.Codec ValidaGen
 
@@ -88,6 +89,22 @@ def handle (j : Json) : P Json := do
       let c1 ← decCondLit a[2]!
       let c2 ← decCondLit a[3]!
       pure (encOutcome encCondLit (Cond.mkBin op c1 c2))
+  | "build" => do
+      let instrs ← (← arr a[1]!).toList.mapM (fun it => do
+        let p ← arr it
+        match ← str p[0]! with
+        | "leaf" => do
+            match ← decCondLit p[1]! with
+            | .leaf l => pure (HOp.leaf l)
+            | _ => throw "build: leaf expected"
+        | "comb" => do pure (HOp.comb (← decOp (← str p[1]!)) (← nat p[2]!) (← nat p[3]!))
+        | t => throw s!"bad instruction {t}")
+      let (h, outs) := runHistory 64 #[] [] instrs
+      let encOut (o : Except Exc Nat) : Json := encOutcome (fun (n : Nat) => Json.num n) o
+      let dens := outs.map (fun o => match o with
+        | .ok i => encOutcome encCondLit (Heap.den h 64 i)
+        | .error e => encExc e)
+      pure (Json.mkObj [("outs", .arr (outs.map encOut).toArray), ("dens", .arr dens.toArray)])
   | "mkpart" => do
       let kind ← decPartKind (← str a[1]!)
       let key ← decDatumSpec a[2]!
